@@ -617,7 +617,13 @@ func runC03(p c03Plan, c *stats.Case) error {
 			return fmt.Errorf("harness bug: honest construction rejected by the reference (%s)", why)
 		}
 	default:
-		c.NT("verdict:" + why + ":" + era.String())
+		// a mutated case is non-trivial when the reference verdict was reached by a hash / position comparison;
+		// a proof of the wrong size is rejected by its shape alone and only counted
+		if why == "proof-size" {
+			c.Class("verdict:" + why + ":" + era.String())
+		} else {
+			c.NT("verdict:" + why + ":" + era.String())
+		}
 	}
 	if p.BuildEra != p.NumEra {
 		c.Class("cross-era")
